@@ -273,8 +273,21 @@ class Repo:
     def trace_env(self):
         return {"VHELPER_TRACE": self.trace_dir, "VHELPER_SCRIPTS": self.script_dir}
 
+    def foreign_cwd(self):
+        """From now on monorail is invoked with `-f <abs config>` from a different directory that has an
+        unrelated output directory of its own (which must stay untouched)."""
+        d = os.path.join(self.s.dir, os.path.basename(self.dir) + "-elsewhere")
+        os.makedirs(os.path.join(d, self.cfg.get("out_dir", "monorail-out"), "tracking"), exist_ok=True)
+        with open(os.path.join(d, self.cfg.get("out_dir", "monorail-out"), "tracking", "unrelated.txt"), "w") as f:
+            f.write("belongs to another project\n")
+        self.invoke_cwd = d
+        return d
+
     def mr(self, *args, env=None, timeout=120, stdin=None, cwd=None):
         """Runs the hooks-on monorail binary in the repository; returns Result."""
+        if getattr(self, "invoke_cwd", None) and cwd is None and "-f" not in args:
+            cwd = self.invoke_cwd
+            args = ("-f", os.path.join(self.dir, "Monorail.json")) + tuple(args)
         e = self.s.env(env)
         try:
             r = subprocess.run([common.MONORAIL] + list(args), cwd=cwd or self.dir, env=e,
